@@ -76,7 +76,12 @@ func c06Gen(rt *rapid.T) wProg {
 			if gPct(rt, 70) {
 				for hs := 1; hs < len(p.Sess); hs++ {
 					if p.Sess[hs] == tgt {
-						p.Ops = append(p.Ops, wOp{K: gPick(rt, []string{"set", "sub"}, "how"), S: hs, T: "g0", A: "mode", B: gPick(rt, []string{"JRWPASDO", "JRWPSO"}, "accept")})
+						acc := gPick(rt, []string{"JRWPASDO", "JRWPSO"}, "accept")
+						if gPct(rt, 50) {
+							p.Ops = append(p.Ops, wOp{K: "set", S: hs, T: "g0", A: "mode", B: acc})
+						} else {
+							p.Ops = append(p.Ops, wOp{K: "sub", S: hs, T: "g0", A: acc})
+						}
 						break
 					}
 				}
@@ -201,27 +206,35 @@ func (o *c06Obs) After(w *wWorld, st *wStep) *kit.Viol {
 			}
 			o.owner[name] = newOwner
 			o.transfers++
-			o.grants = map[types.Uid]bool{}
+			// grants made by the then-owner to other subscribers stay valid until revoked
+			delete(o.grants, newOwner)
 			continue
 		}
 		// The owner's row must not lose O or J (given) or be deleted by somebody else's request.
 		pre, post2 := subRows(o.pre)[subKey{name, prevOwner}], subRows(post)[subKey{name, prevOwner}]
 		if actor != prevOwner && !st.Skipped && st.Op.K != "reload" && st.Op.K != "restart" {
-			if pre.given.IsOwner() && (!post2.given.IsOwner() || !post2.given.IsJoiner() || post2.deleted) {
+			if pre.given.IsOwner() && !pre.deleted && (!post2.given.IsOwner() || (pre.given.IsJoiner() && !post2.given.IsJoiner()) || post2.deleted) {
 				return kit.V("owner-demoted-by-other", "owner (user %d) of %s lost O/J or the subscription by a request of user %d: %s", w.userIdx(prevOwner), name, st.User, st.Req)
+			}
+		}
+		// A grant is gone when the grantee's given no longer holds O.
+		for k, v := range subRows(post) {
+			// (an unsubscribed or evicted user keeps the stored grant: re-subscribing restores it, C07)
+			if k.topic == name && o.grants[k.user] && !v.given.IsOwner() {
+				delete(o.grants, k.user)
 			}
 		}
 		// Track grants of O made by the owner.
 		if actor == prevOwner {
 			for k, v := range subRows(post) {
-				if k.topic == name && k.user != prevOwner && v.given.IsOwner() && !subRows(o.pre)[k].given.IsOwner() {
+				if pr := subRows(o.pre)[k]; k.topic == name && k.user != prevOwner && v.given.IsOwner() && !pr.given.IsOwner() {
 					o.grants[k.user] = true
 					o.pending++
 				}
 			}
 		} else {
 			for k, v := range subRows(post) {
-				if k.topic == name && k.user != prevOwner && v.given.IsOwner() && !subRows(o.pre)[k].given.IsOwner() {
+				if pr := subRows(o.pre)[k]; k.topic == name && k.user != prevOwner && v.given.IsOwner() && !pr.given.IsOwner() {
 					return kit.V("O-granted-by-non-owner", "user %d got O in given on %s by a request of user %d who is not the owner: %s", w.userIdx(k.user), name, st.User, st.Req)
 				}
 			}
